@@ -177,3 +177,21 @@ func ref_ArgKeep(dst *Dst, src Src) {
 	refCommon(dst, &src)
 	dst.M = m
 }
+
+// Templ: $1 is the source operand, $2 the additional argument (both non-nil by the caller's
+// contract); every pointer MEMBER on a path may be nil, which leaves the destination untouched.
+func ref_Templ(src *Src, extra *SIn) *Dst {
+	dst := &Dst{}
+	refCommon(dst, src)
+	refIn(&dst.In, &src.In)
+	if extra.PD != nil {
+		dst.In.Z = extra.PD.N
+	}
+	if src.PIn != nil {
+		dst.Note = src.PIn.B
+	}
+	if src.PGr != nil {
+		dst.Count = int(Rank(src.PGr.String()))
+	}
+	return dst
+}
